@@ -308,7 +308,7 @@ func init() {
 // ---- cases
 
 type hCase struct {
-	Kind  string `json:"kind"` // trunc | sweep | field | havoc | session | single | rlefi
+	Kind  string `json:"kind"` // trunc | sweep | field | havoc | session | single | rlefi | fill | sizshift | j2kamp
 	Seed  string `json:"seed,omitempty"`
 	From  int    `json:"from,omitempty"` // sweep/field: first offset
 	To    int    `json:"to,omitempty"`
@@ -354,6 +354,12 @@ func hostileBuild(id, tier string, seed uint64) []any {
 		cs = append(cs, &hCase{Kind: "fill", Seed: s.Name})
 		if s.Family == "j2k" {
 			cs = append(cs, &hCase{Kind: "sizshift", Seed: s.Name})
+			// header-claimed work vs. data actually present: quick takes three seeds
+			if th || s.Name == "j2k-rev-g" || s.Name == "j2k-precincts" || s.Name == "ht-g16" {
+				for prog := 0; prog < 5; prog++ {
+					cs = append(cs, &hCase{Kind: "j2kamp", Seed: s.Name, From: prog})
+				}
+			}
 		}
 	}
 	nHavoc, nSess, sessN := 3, 1, 1200
@@ -902,6 +908,13 @@ func hostileExec(id string, measure bool, d any) mon.Result {
 				}
 			}
 		}
+	case "j2kamp":
+		// a well-formed main header whose COD claims much work (layers, levels, small
+		// precincts) in progression order c.From, followed by one tile-part holding little
+		// or no packet data: cost must follow the bytes present, not the claimed counts
+		for _, d := range j2kAmplify(s.Data, c.From) {
+			run(d, nil)
+		}
 	case "havoc":
 		r := gen.New(c.MSeed)
 		for i := 0; i < c.N; i++ {
@@ -935,6 +948,93 @@ func hostileExec(id string, measure bool, d any) mon.Result {
 	}
 	res.AddFeat("signatures_with_a_successful_decode", int64(nOK))
 	return res
+}
+
+// j2kAmplify rewrites the COD (and, when the level count changes, the QCD) segment of a
+// codestream and replaces everything after the main header by a single tile-part.
+func j2kAmplify(src []byte, prog int) [][]byte {
+	inf, _ := ref.WalkJ2K(src)
+	if inf == nil || inf.COD == nil || inf.QCD == nil || len(inf.TileParts) == 0 || inf.MainHeaderEnd > len(src) {
+		return nil
+	}
+	// locate the COD and QCD segments of the main header
+	cs, ce, qs, qe := -1, -1, -1, -1
+	for o := 2; o+4 <= inf.MainHeaderEnd; {
+		if src[o] != 0xFF {
+			return nil
+		}
+		l := int(src[o+2])<<8 | int(src[o+3])
+		switch src[o+1] {
+		case 0x52:
+			cs, ce = o, o+2+l
+		case 0x5C:
+			qs, qe = o, o+2+l
+		}
+		o += 2 + l
+	}
+	if cs < 0 || qs < 0 || ce > inf.MainHeaderEnd || qe > inf.MainHeaderEnd {
+		return nil
+	}
+	tp := inf.TileParts[0]
+	if tp.BodyStart > len(src) || tp.BodyEnd > len(src) || tp.BodyStart > tp.BodyEnd {
+		return nil
+	}
+	body := src[tp.BodyStart:tp.BodyEnd]
+	bodies := [][]byte{nil, {0}, {0, 0, 0, 0}, bytes.Repeat([]byte{0}, 64), bytes.Repeat([]byte{0x80}, 16), body[:len(body)/2], body}
+	var out [][]byte
+	for _, layers := range []int{1, 3, 65535} {
+		for _, levels := range []int{-1, 0, 5} {
+			for pv := 0; pv < 4; pv++ {
+				c := *inf.COD
+				lv := c.Levels
+				if levels >= 0 {
+					lv = levels
+				}
+				cod := []byte{0xFF, 0x52, 0, 0, byte(c.Scod &^ 1), byte(prog), byte(layers >> 8), byte(layers), byte(c.MCT), byte(lv), byte(c.XCB), byte(c.YCB), byte(c.Style), byte(c.Transform)}
+				if pv >= 2 { // the smallest code-blocks, so that every small precinct holds one
+					cod[10], cod[11] = 0, 0
+				}
+				if pv > 0 {
+					cod[4] |= 1
+					for r := 0; r <= lv; r++ {
+						b := byte(0x11)
+						switch {
+						case pv == 2:
+							b = 0x22
+						case pv == 3 && r == 0:
+							b = 0x00
+						}
+						cod = append(cod, b)
+					}
+				}
+				cod[2], cod[3] = byte((len(cod)-2)>>8), byte(len(cod)-2)
+				qcd := src[qs:qe]
+				if lv != c.Levels {
+					qcd = []byte{0xFF, 0x5C, 0, 0, byte(inf.QCD.Guard << 5)}
+					for b := 0; b < 3*lv+1; b++ {
+						qcd = append(qcd, byte(10<<3))
+					}
+					qcd[2], qcd[3] = byte((len(qcd)-2)>>8), byte(len(qcd)-2)
+				}
+				// main header with both segments replaced, in their original order
+				var hdr []byte
+				if cs < qs {
+					hdr = append(append(append(append(append(hdr, src[:cs]...), cod...), src[ce:qs]...), qcd...), src[qe:inf.MainHeaderEnd]...)
+				} else {
+					hdr = append(append(append(append(append(hdr, src[:qs]...), qcd...), src[qe:cs]...), cod...), src[ce:inf.MainHeaderEnd]...)
+				}
+				for _, bd := range bodies {
+					psot := 14 + len(bd)
+					d := append([]byte(nil), hdr...)
+					d = append(d, 0xFF, 0x90, 0, 10, 0, 0, byte(psot>>24), byte(psot>>16), byte(psot>>8), byte(psot), 0, 1, 0xFF, 0x93)
+					d = append(d, bd...)
+					d = append(d, 0xFF, 0xD9)
+					out = append(out, d)
+				}
+			}
+		}
+	}
+	return out
 }
 
 func sortedKeys(m map[string]bool) []string {
